@@ -208,13 +208,22 @@ def find_function(relpath, qual, match=None, nth=0):
     return f
 
 
-def find_struct(relpath, name, kind=r'(?:struct|union)'):
+def find_struct(relpath, name, kind=r'(?:struct|union)', nth=0):
     src = read_source(relpath)
-    m = re.search(r'\b(' + kind + r')\s+' + re.escape(name) + r'\s*\{', src)
-    if not m:
+    ms = list(re.finditer(r'\b(' + kind + r')\s+' + re.escape(name) + r'\s*\{', src))
+    if len(ms) <= nth:
         raise ExtractError('struct %s not found in %s' % (name, relpath))
+    m = ms[nth]
     k = match_bracket(src, m.end() - 1, '{', '}')
-    return src[m.start():k]
+    return src[m.start():k] + packed_marker(src, k)
+
+
+PACKED_RX = re.compile(r'\s*(?:\w+\s*)?(TINS_END_PACK|__attribute__\s*\(\(\s*packed\s*\)\))')
+
+
+def packed_marker(src, k):
+    """' /*PACKED*/' if the struct whose closing brace ends at offset k is declared packed (TINS_END_PACK), else ''"""
+    return ' /*PACKED*/' if PACKED_RX.match(src, k) else ''
 
 
 def find_enum(relpath, name):
